@@ -71,7 +71,9 @@ def build_unit(name, sentinel=False, disabled_hints=(), extra_consts=()):
                 src.find('%s %s' % (kind, cname))
             except LostAnchor:
                 continue
-            u.emit(rel, '%s %s' % (kind, cname))
+            from . import rules as _rules
+            u.emit(rel, '%s %s' % (kind, cname), rules=([_rules.r1_r2_map_collect(0, with_decreases=True), _rules.r13_assert_eq] if kind == 'fn' else ()),
+                   pre=(lambda t: re.sub(r'(?m)^((?:pub )?fn )', r'#[verifier::exec_allows_no_decreases_clause]\n\1', t, count=1)) if kind == 'fn' else None)
             u.relaxed.append('%s %s (not in the unit description) sliced from %s because the code now refers to it%s' % (
                 kind, cname, rel, '' if kind == 'const' else ' - it has no contract, callers see only its signature'))
             break
